@@ -37,6 +37,15 @@ def creator_distinct(S, v):
 for op in ("_union", "_intersection"):
     c = contract(F + op, params={"self": T.Ref("AddrFields"), "key": T.Str, "a": SSET, "b": SSET}, returns=SSET,
                  ghost={"v": VISIT}, tags=["C08", "C01", "C03"])
+    def _samples():
+        from tealer.analyses.dataflow.transaction_context.addr_fields import AddrFields
+        me = AddrFields.__new__(AddrFields)
+        pool = [{"ANY_ADDRESS"}, {"NO_ADDRESS"}, {"ADDR_X"}, {"ADDR_Y"}, {"ADDR_X", "ADDR_Y"}, {"CREATOR_ADDRESS"},
+                {"ADDR_X", "CREATOR_ADDRESS"}]
+        for x in pool:
+            for y in pool:
+                yield {"self": me, "key": "RekeyTo", "a": set(x), "b": set(y)}
+    c.samples = _samples
     requires(c, "wf_a", lambda a: wf_addr(a))
     requires(c, "wf_b", lambda b: wf_addr(b))
     requires(c, "creator_distinct", lambda a, b, v: And(creator_distinct(a, v), creator_distinct(b, v)))
